@@ -34,6 +34,8 @@ const (
 	replyOtherRun
 	replyStepFatal
 	replyServerFatal
+	replyGarbledError // an error message whose payload is well-formed CBOR of the wrong shape, then the stream ends
+	replyGarbledDone  // the same for a work-done message
 	replyCount
 )
 
@@ -143,6 +145,14 @@ func VerifC08_BrokenStream() {
 				broken = true
 			case replyStepFatal:
 				_ = enc.Encode(RuntimeMessage{MessageTypeError, run, ErrorMessage{Error: "boom", StepFatal: true}})
+			case replyGarbledError:
+				_ = enc.Encode(RuntimeMessage{MessageTypeError, run, map[string]any{"error": "boom", "step_fatal": int64(10), "server_fatal": "x"}})
+				_ = fromSrvW.Close()
+				broken = true
+			case replyGarbledDone:
+				_ = enc.Encode(RuntimeMessage{MessageTypeWorkDone, run, "not a work done message"})
+				_ = fromSrvW.Close()
+				broken = true
 			case replyServerFatal:
 				_ = enc.Encode(RuntimeMessage{MessageTypeError, run, ErrorMessage{Error: "boom", StepFatal: true, ServerFatal: true}})
 				_ = fromSrvW.Close()
